@@ -25,6 +25,13 @@ func (core *JApiCore) processInclude(keyword *scanner.Lexeme) *jerr.JApiError {
 		return japiErrorForLexeme(keyword, fmt.Sprintf("%s (%s)", jerr.DirectiveNotAllowed, directive.Include.String()))
 	}
 
+	// The directive before the INCLUDE is complete: it is placed now, while the including
+	// file is still the current one, so that an error about it is not traced as if it were
+	// inside the included file.
+	if je := core.processCurrentDirective(); je != nil {
+		return je
+	}
+
 	path, je := core.getIncludedFilePath(keyword)
 	if je != nil {
 		return je
